@@ -19,6 +19,7 @@ type Payload struct {
 	M    map[string]int64 // per-request containers (never shared between requests)
 	NilM map[string]int64
 	Sl   []int64
+	MU   map[uint8]int64 // an unsigned-keyed map: an integer literal key cannot be converted to its key kind
 }
 
 // poolReq is one in-flight pool request of a history.
@@ -90,7 +91,7 @@ func (h *poolHarness) start(id int64, kind int64, keys []string, call gx.Call) *
 	r := &poolReq{id: id, keys: keys, call: call, kind: kind, payloads: map[string]*Payload{}, done: make(chan struct{})}
 	data := map[string]interface{}{}
 	for _, k := range keys {
-		p := &Payload{Id: id, Kind: kind, M: map[string]int64{}, Sl: []int64{0, 0}}
+		p := &Payload{Id: id, Kind: kind, M: map[string]int64{}, Sl: []int64{id, 0}, MU: map[uint8]int64{1: 1}}
 		r.payloads[k] = p
 		data[k] = p
 	}
